@@ -23,6 +23,7 @@
   RNG drops out, see DESIGN §5 C06).
 -/
 import CTM.Model.Tree
+import CTM.Model.Markers
 
 namespace CTM
 namespace LevelLoop
@@ -482,6 +483,29 @@ def mapPipeline {κ} (t0 : RawTree) (cfg : Config) (vote : Oracle κ)
           match reorderBlob ids blob with
           | .error e => .error e
           | .ok ordered => backfill tMeta ordered
+
+/-! ### the marker table through the `drop_level` / `flatten` blocks of `_run_mapping`
+
+The marker table (`Markers.Lookup`, group E's model of the serialized lookup
+with the `metadata` / `log` keys already popped) is read before the flatten
+block; `drop_level` touches the tree only.  Under `flatten` the table becomes
+`{'None': sorted(set().union(*all lists of the table))}` — every list of the
+table, whatever the tree of the run looks like (`Markers.flattenLookup`). -/
+
+/-- tree and marker table after the `drop_level` and `flatten` blocks -/
+def mapSetup (t0 : RawTree) (cfg : Config) (lk : Markers.Lookup) :
+    Except Err (RawTree × Markers.Lookup) :=
+  match runTree t0 cfg with
+  | .error e => .error e
+  | .ok t => .ok (t, if cfg.flatten then Markers.flattenLookup lk else lk)
+
+/-- the genes the root votes on in a flattened run whose table is usable: the
+union list restricted to the genes of the query, in reference order (the marker
+cache stores reference indices in increasing order) -/
+def flatRootGenes (lk : Markers.Lookup) (R Q : List Markers.Gene) : List Markers.Gene :=
+  match Markers.flattenLookup lk with
+  | [(_, union)] => R.filter (fun g => union.contains g && Q.contains g)
+  | _ => []
 
 end LevelLoop
 end CTM
